@@ -275,8 +275,9 @@ inductive ClientOp
   | query (node : Str)
 
 inductive ClientOut (β : Type)
-  /-- an emitted `<presence/>` with `<c ver=…/>` -/
-  | presence (ver : β)
+  /-- an emitted `<presence/>`: `some v` = with `<c ver=v node=… hash='sha-1'/>`; `none` = without a caps element
+  (`QXmppPresence::toXml` omits it when the capabilities node is empty, i.e. nothing is advertised) -/
+  | presence (ver : Option β)
   /-- the `ver` of the answered info set, `none` = item-not-found -/
   | answer (ver : Option β)
   deriving DecidableEq, Repr
@@ -287,7 +288,7 @@ def clientStep {β : Type} (H : Str → β) (s : ClientSt β) : ClientOp → Cli
   | .configure c => ({ s with cfg := c }, [])
   | .publish _ =>
     let v := advertisedVer H s.cfg
-    ({ s with presenceVer := some v }, [.presence v])
+    ({ s with presenceVer := some v }, [.presence (if s.cfg.node = [] then none else some v)])
   | .query n => (s, [.answer ((answeredInfo s.cfg n).map (ver H))])
 
 /-- run a history; every output is recorded together with the configuration in force when it was produced -/
